@@ -1,4 +1,5 @@
 import Pi2.Sexp
+import Pi2.Diag
 /-!
 # `pi2drv` — the Lean model behind the line protocol (one request per line, one answer per line)
 -/
@@ -72,6 +73,93 @@ def handle (line : String) : String :=
       match npatOfSexp a, npatOfSexp b with
       | some a, some b => (match NPat.peqF fuel a b with | some r => toString r | none => "fuel")
       | _, _ => "bad-request"
+    | "track-x", [.list (.atom "claims" :: cls), .list (.atom "calls" :: cs)] =>
+      match cls.mapM npatOfSexp, cs.mapM callOfSexp with
+      | some cls, some cs =>
+        (match PySt.trackAll fuel (PySt.init cls) cs ([], [], []) with
+         | none => "fuel" | some none => "(raise)"
+         | some (some (s, _)) => s!"(ok {pystToStrX s})")
+      | _, _ => "bad-request"
+    | "track", [.list (.atom "claims" :: cls), .list (.atom "calls" :: cs)] =>
+      match cls.mapM npatOfSexp, cs.mapM callOfSexp with
+      | some cls, some cs =>
+        -- run call by call so that the index of the first raising call and the state before it are reported
+        let rec go (s : PySt) (out : List Instr × List Instr × List Instr) (i : Nat) : List Call → String
+          | [] =>
+            let (g, c, p) := out
+            s!"(ok {pystToStr s} {hexOfBytes (encode g)} {hexOfBytes (encode c)} {hexOfBytes (encode p)})"
+          | c :: rest =>
+            match PySt.trackAll fuel s [c] out with
+            | none => "fuel"
+            | some none =>
+              let (g, cl, p) := out
+              s!"(raise {i} {pystToStr s} {hexOfBytes (encode g)} {hexOfBytes (encode cl)} {hexOfBytes (encode p)})"
+            | some (some (s', out')) =>
+              -- bytes([...]) raises ValueError on a value above 255
+              let (g, cl, p) := out'
+              if (encode g ++ encode cl ++ encode p).any (· > 255) then
+                let (g0, c0, p0) := out
+                s!"(raise {i} {pystToStr s} {hexOfBytes (encode g0)} {hexOfBytes (encode c0)} {hexOfBytes (encode p0)})"
+              else go s' out' (i + 1) rest
+        go (PySt.init cls) ([], [], []) 0 cs
+      | _, _ => "bad-request"
+    | "mstate", [.atom ph, .atom g, .atom c, .atom p] =>
+      -- reference machine: run gamma, (claim), (proof) on the bytes emitted so far; state of phase `ph`
+      match bytesOfHex g, bytesOfHex c, bytesOfHex p with
+      | some g, some c, some p =>
+        match decode g, decode c, decode p with
+        | some gi, some ci, some pi =>
+          (match Diag.runWhy .gamma ⟨[], [], []⟩ gi 0 with
+           | .inr (k, w) => s!"(rej gamma {k} {w})"
+           | .inl s1 =>
+             if ph == "gamma" then stToStr s1 else
+             match Diag.runWhy .claim { s1 with stack := [] } ci 0 with
+             | .inr (k, w) => s!"(rej claim {k} {w})"
+             | .inl s2 =>
+               if ph == "claim" then stToStr s2 else
+               match Diag.runWhy .proof { s2 with stack := [] } pi 0 with
+               | .inr (k, w) => s!"(rej proof {k} {w})"
+               | .inl s3 => stToStr s3)
+        | _, _, _ => "(rej decode)"
+      | _, _, _ => "bad-request"
+    | "deser-x", [.list (.atom "claims" :: cls), .atom g, .atom c, .atom p] =>
+      match cls.mapM npatOfSexp, bytesOfHex g, bytesOfHex c, bytesOfHex p with
+      | some cls, some g, some c, some p =>
+        (match PySt.deserialize fuel (PySt.init cls) g with
+         | some (some s1) =>
+           match PySt.track1 fuel s1 .intoClaim with
+           | some (some s1') =>
+             (match PySt.deserialize fuel s1' c with
+              | some (some s2) =>
+                match PySt.track1 fuel s2 .intoProof with
+                | some (some s2') =>
+                  (match PySt.deserialize fuel s2' p with
+                   | some (some s3) => s!"(ok {pystToStrX s3})"
+                   | _ => "(raise)")
+                | _ => "(raise)"
+              | _ => "(raise)")
+           | _ => "(raise)"
+         | _ => "(raise)")
+      | _, _, _, _ => "bad-request"
+    | "deser", [.list (.atom "claims" :: cls), .atom g, .atom c, .atom p] =>
+      match cls.mapM npatOfSexp, bytesOfHex g, bytesOfHex c, bytesOfHex p with
+      | some cls, some g, some c, some p =>
+        (match PySt.deserialize fuel (PySt.init cls) g with
+         | none => "fuel" | some none => "(raise gamma)"
+         | some (some s1) =>
+           match PySt.track1 fuel s1 .intoClaim with
+           | some (some s1') =>
+             (match PySt.deserialize fuel s1' c with
+              | none => "fuel" | some none => "(raise claim)"
+              | some (some s2) =>
+                match PySt.track1 fuel s2 .intoProof with
+                | some (some s2') =>
+                  (match PySt.deserialize fuel s2' p with
+                   | none => "fuel" | some none => "(raise proof)"
+                   | some (some s3) => s!"(ok {pystToStr s3})")
+                | _ => "(raise claim)")
+           | _ => "(raise gamma)")
+      | _, _, _, _ => "bad-request"
     | "rule-mp", [a, b] =>
       match npatOfSexp a, npatOfSexp b with
       | some a, some b => (match NPat.pyMP fuel a b with
